@@ -103,7 +103,7 @@ func TestRoundTrip(t *testing.T) {
 	}
 	defer srv.Close()
 	r := rand.New(rand.NewSource(11))
-	for i := 0; i < 1500; i++ {
+	for i := 0; i < 400; i++ {
 		g := Gen(r, Cfg{WellFormed: i%4 == 0, Compilable: i%5 == 0})
 		pr := PrintPos(g, r, Styles[i%len(Styles)])
 		a := srv.Parse([]byte(pr.Text))
@@ -128,5 +128,59 @@ func TestBootstrapAgrees(t *testing.T) {
 		if got, want := Dump(UnquoteDisplayNames(Clone(pr.AST)), false), Dump(bg, false); got != want {
 			t.Fatalf("case %d: dump differs\nboot %s\nwant %s\n%s", i, want, got, pr.Text)
 		}
+	}
+}
+
+func TestTokensPartition(t *testing.T) {
+	r := rand.New(rand.NewSource(9))
+	for i := 0; i < 300; i++ {
+		text := Print(Gen(r, Cfg{}), r, Styles[i%len(Styles)])
+		for k := 0; k < 3; k++ {
+			if got := strings.Join(Tokens(text), ""); got != text {
+				t.Fatalf("Tokens does not partition the text\n%q\n%q", text, got)
+			}
+			text, _ = Mutate(r, text, -1)
+		}
+		if got := strings.Join(Tokens(RawBytes(r, 100)), ""); len(got) < 100 {
+			t.Fatalf("RawBytes too short: %d", len(got))
+		}
+	}
+}
+
+// The documented scoping rules on a hand-made grammar.
+func TestCodeSites(t *testing.T) {
+	g, err := ParseDump(`(Grammar nil (Rule (Identifier "A") nil (ChoiceExpr ` +
+		`(ActionExpr (SeqExpr (LabeledExpr (Identifier "a") (AnyMatcher ".")) (AndCodeExpr (CodeBlock "{p}")) ` +
+		`(LabeledExpr (Identifier "b") (ZeroOrMoreExpr (ActionExpr (LabeledExpr (Identifier "c") (AnyMatcher ".")) (CodeBlock "{q}"))))) (CodeBlock "{r}")) ` +
+		`(SeqExpr (StateCodeExpr (CodeBlock "{s}")) (LabeledExpr (Identifier "d") (AnyMatcher "."))))))`)
+	if err != nil {
+		t.Fatal(err)
+	}
+	var got []string
+	for _, s := range CodeSites(g) {
+		got = append(got, s.FuncName()+"("+strings.Join(s.Params, ",")+")"+s.Kind.String())
+	}
+	want := "onA6(a)and onA9(c)action onA2(a,b)action onA13()state"
+	if strings.Join(got, " ") != want {
+		t.Fatalf("got  %s\nwant %s", strings.Join(got, " "), want)
+	}
+}
+
+// Positions follow pigeon's convention (runes for columns, bytes for offsets,
+// a node inside parentheses starts after them, its parent before them).
+func TestPositionsHandmade(t *testing.T) {
+	if _, err := os.Stat(verifPigeon); err != nil {
+		t.Skip("no " + verifPigeon)
+	}
+	srv, err := StartServer(verifPigeon)
+	if err != nil {
+		t.Fatal(err)
+	}
+	defer srv.Close()
+	a := srv.Parse([]byte("\né = ( 'ü' b )* // c\n\tb <- .\n"))
+	want := `(Grammar@2:0:0 nil (Rule@2:1:1 (Identifier@2:1:1 "é") nil (ZeroOrMoreExpr@2:5:6 (SeqExpr@2:7:8 (LitMatcher@2:7:8 "ü" ic=false) (RuleRefExpr@2:11:13 (Identifier@2:11:13 "b"))))) ` +
+		`(Rule@3:2:24 (Identifier@3:2:24 "b") nil (AnyMatcher@3:7:29 ".")))`
+	if a.Kind != "ok" || a.Dump != want {
+		t.Fatalf("%s %s\n got %s\nwant %s", a.Kind, a.Msg, a.Dump, want)
 	}
 }
